@@ -277,22 +277,43 @@ def run(rep, tier):
                     rep.ok("C19.R4", f, "select_active_pu: fallback accepts states <= %s only" % m.group(1))
                 else:
                     rep.bad("C19.R4", f, blk.term.get("loc", f.loc), "threshold-fallback", "select_active_pu accepts a PU in state > %s" % m.group(1))
+        # the threshold variable(s): locals compared against the PU state  'X < this->states_[..].runtime_state()'
+        thr_vars = set()
+        idx_vars = set()
+        for F2 in [sel] + lams:
+            for blk2 in F2.blocks.values():
+                if blk2.cond is None:
+                    continue
+                for a2, _t in [cond_atoms(blk2.cond)]:
+                    m2 = re.match(r"^(\w+) < this->states_\[(\w+)\]\.runtime_state\(\)$", a2)
+                    if m2:
+                        thr_vars.add(m2.group(1))
+                        idx_vars.add(m2.group(2))
+                    m3 = re.match(r"^pika::runtime_state::\w+ < this->states_\[(\w+)\]\.runtime_state\(\)$", a2)
+                    if m3:
+                        idx_vars.add(m3.group(1))
+        if not thr_vars:
+            thr_vars = {"max_allowed_state"}
         # (b) the threshold is raised only when a full round found no acceptable PU
         for b, i, ev in f.all_events():
-            if ev.get("k") == "write" and P(ev["lhs"]) == "max_allowed_state":
+            if ev.get("k") == "write" and P(ev["lhs"]) in thr_vars:
                 fb = ff_.before.get((b, i)) or frozenset()
-                if ("0 == num_allowed_threads", True) in fb or ("num_allowed_threads == 0", True) in fb:
+                # "no acceptable PU was seen in this round": a local counter that starts at 0, is only ever incremented, and is 0 here
+                counters = set(P(e_["lhs"]) for _, _, e_ in f.all_events() if e_.get("k") == "write" and e_.get("op") == "++" and re.match(r"^\w+$", P(e_["lhs"])))
+                if any(t and (re.match(r"^0 == (\w+)$", a) and re.match(r"^0 == (\w+)$", a).group(1) in counters or
+                              re.match(r"^(\w+) == 0$", a) and re.match(r"^(\w+) == 0$", a).group(1) in counters) for a, t in fb):
                     rep.ok("C19.R4", f, "threshold raised to %s only after a round without any acceptable PU" % T(ev["rhs"]))
                 else:
                     rep.bad("C19.R4", f, loc_of(ev), "threshold-raise", "the accepted-state threshold is raised although acceptable PUs may exist")
         # (c) a PU is chosen only with its mutex held and its state within the threshold
         for b, i, ev in f.all_events():
-            chosen = (ev.get("k") == "write" and P(ev["lhs"]) == "num_thread" and "num_thread_local" in T(ev["rhs"])) or \
-                     (ev.get("k") == "return" and T(ev.get("e")) == "num_thread_local")
+            chosen = (ev.get("k") == "write" and ev.get("op", "=") == "=" and re.match(r"^\w+$", P(ev["lhs"])) and T(strip(ev.get("rhs"))) in idx_vars) or \
+                     (ev.get("k") == "return" and ev.get("e") is not None and T(strip(ev.get("e"))) in idx_vars)
             if chosen:
                 fb = ff_.before.get((b, i)) or frozenset()
-                owns = ("l.owns_lock()", True) in fb
-                within = any((not t) and re.search(r" < this->states_\[num_thread_local\]\.runtime_state\(\)$", a) for a, t in fb)
+                iv = T(strip(ev.get("rhs") if ev.get("k") == "write" else ev.get("e")))
+                owns = any(t and re.match(r"^\w+\.owns_lock\(\)$", a) for a, t in fb)
+                within = any((not t) and re.search(r" < this->states_\[%s\]\.runtime_state\(\)$" % re.escape(iv), a) for a, t in fb)
                 if owns and within:
                     rep.ok("C19.R4", f, "PU chosen only with its mutex held and its state within the threshold")
                 else:
